@@ -13,18 +13,19 @@ def c06_parse():
                     if signed and n > 0 and pat[0] != "m" and radix != 10:
                         continue   # the BigInt wrapper only adds the '-' handling; other first classes once (radix 10)
                     # a second-position '+' after '-' matters for BigInt ("-+1"): class x in position 2 includes '+'
-                    q = (radix == 10 and n <= 3) or (radix == 16 and n <= 2 and not signed) or (radix in (2, 36) and n == 2 and pat in ("xx", "px", "mx"))
-                    if radix in (8, 3) and n != 2:
+                    # from_str_radix on symbolic text does not finish (DESIGN 9.2): three thorough-tier attempts are kept, nothing in the quick tier
+                    q = False
+                    if not (radix == 10 and pat in ("x", "px", "mx")):
                         continue
                     L.append('parse_shape!(c06_%s_parse_%s_r%d_%s, %d, %d, b"%s", %s);' % (
                         tier(q), "int" if signed else "uint", radix, pat if pat else "empty", n, radix, pat, str(signed).lower()))
-    for n in (1, 2, 3):
-        L.append("parse_bytes_shape!(c06_%s_parse_bytes_%d, %d);" % (tier(n <= 2), n, n))
+    L.append("parse_bytes_shape!(c06_t_parse_bytes_1, 1);")
     for n in range(0, 5):
         for radix in (3, 10, 190, 255, 256, 2, 16, 8, 128):
             q = (n in (0, 1, 3) and radix in (10, 256, 16)) or (n == 2 and radix in (3, 255, 8))
             L.append("from_radix_shape!(c06_%s_from_radix_n%d_r%d, %d, %d);" % (tier(q), n, radix, n, radix))
     for w in range(0, 5):
-        L.append("radix_range_mp!(c06_q_radix_range_%d_mp, %d);" % (w, w))
+        for r in ((0, 1, 37, 4294967295) if w in (0, 3, 4) else (0, 1, 257, 4294967295)):
+            L.append("radix_range_mp!(c06_%s_radix_range_%d_r%d_mp, %d, %d);" % (tier(r in (1, 37, 257)), w, r, w, r))
     return L
 GEN["c06_parse"] = c06_parse
